@@ -243,8 +243,8 @@ func (i *Index) AddDesc(d Descriptor, opts ...IndexOpt) {
 				return
 			}
 			if md.Annotations == nil ||
-				((tag == "" || md.Annotations[AnnotRefName] == "" || md.Annotations[AnnotRefName] == tag) &&
-					(referrer == "" || md.Annotations[AnnotReferrerSubject] == "" || md.Annotations[AnnotReferrerSubject] == referrer)) {
+				((md.Annotations[AnnotRefName] == "" || md.Annotations[AnnotRefName] == tag) &&
+					(md.Annotations[AnnotReferrerSubject] == "" || md.Annotations[AnnotReferrerSubject] == referrer)) {
 				i.Manifests[mi] = d
 				return
 			}
